@@ -192,6 +192,21 @@ theorem setBoundaries_frame (shape : List Nat) (rank : Nat) (specs : List (AxisS
   obtain ⟨ax, s, sd, hs, rfl⟩ := hfc
   exact h ax s sd hs
 
+/-- normal-only conditions on a grid: a ghost entry of a component whose last tensor index differs
+from the axis of every `normal_*` face that could write it (and that no other face writes) keeps its
+value - the other components' virtual points are untouched by the complete setter -/
+theorem setBoundaries_normal_untouched (shape : List Nat) (rank : Nat) (specs : List (AxisSpec K))
+    (a : List Int → K) (idx : List Int)
+    (h : ∀ (ax : Nat) (s : AxisSpec K) (sd : Side), specs[ax]? = some s →
+      ((s.face shape rank ax sd).1.normal = true ∧ (idx.take rank).getD (rank - 1) 0 ≠ (ax : Int)) ∨
+        (s.face shape rank ax sd).1.writes idx = false) :
+    setBoundaries shape rank specs a idx = a idx := by
+  apply setGhostAll_normal_untouched
+  intro fc hfc
+  rw [boundaryFaces_mem] at hfc
+  obtain ⟨ax, s, sd, hs, rfl⟩ := hfc
+  simpa using h ax s sd hs
+
 /-- valid cells are never changed by the setter -/
 theorem setBoundaries_valid_unchanged (shape : List Nat) (rank : Nat) (specs : List (AxisSpec K))
     (hlen : specs.length = shape.length) (a : List Int → K) (idx : List Int)
@@ -444,6 +459,16 @@ example : setBoundaries [3, 2] 0 exSpecs exField [2, 3] = 21 := by decide +kerne
 -- a corner is not written
 example : setBoundaries [3, 2] 0 exSpecs exField [0, 0] = 0 := by decide +kernel
 
+
+/-- a vector field (rank 1) on 2 x 2 cells with `normal_value = 1` on all four sides: at the lower x
+face the x component gets `2 - cell`, the y component's virtual point is untouched -/
+def exNormal : List (AxisSpec Rat) :=
+  [⟨1, (true, .dirichlet (fun _ => 1)), (true, .dirichlet (fun _ => 1))⟩,
+   ⟨1, (true, .dirichlet (fun _ => 1)), (true, .dirichlet (fun _ => 1))⟩]
+def exVec : List Int → Rat := fun i => 100 * (i.getD 0 0 : Rat) + 10 * (i.getD 1 0 : Rat) + (i.getD 2 0 : Rat)
+example : setBoundaries [2, 2] 1 exNormal exVec [0, 0, 1] = 2 - 11 := by decide +kernel
+example : setBoundaries [2, 2] 1 exNormal exVec [1, 0, 1] = exVec [1, 0, 1] := by decide +kernel
+example : setBoundaries [2, 2] 1 exNormal exVec [1, 1, 0] = 2 - 111 := by decide +kernel
 
 /-- linked value: the lower x condition reads slot 0; memory first holds 3, then 5 -/
 def exLSpecs : List (LAxisSpec Rat) :=
